@@ -79,25 +79,40 @@ mutual
 /-- every object of a connected node of ANOTHER table is skipped by the loop body -/
 theorem skip_node {d d' : Bytes} {t : ObjectTree} {h h' : Nat} (w : WF t) (hne : h' ≠ h) :
     ∀ (p : Nat) (n : Node), NodeOK d' t h' true true p n → ∀ y ∈ n.objs, StepSkip d t h y
-  | p, .name x c k off q, ok, y, hy => by
+  | p, .name x c k off seg dv, ok, y, hy => by
     unfold NodeOK at ok
     simp only [Node.objs, List.mem_cons, List.mem_nil_iff, or_false] at hy
     rcases hy with e | e | e <;> rw [e]
     · exact stepSkip_other d ok.lx (by rw [ok.infx]; exact (rowSummary_spec row_8).choose_spec.2.2.2.2.2.1) (by rw [ok.thx]; exact hne)
     · exact stepSkip_leaf d ok.lc (by rw [ok.infc]; exact (rowSummary_spec row_507).choose_spec.2.2.2.2.2.1) (fi_of_nil w ok.lc ok.kc)
-    · exact stepSkip_leaf d ok.lk (by
-        rw [ok.infk]
-        obtain ⟨_, _, _, _, _, _, _, hi, _⟩ := const_row q.w q.v
-        exact hi) (fi_of_nil w ok.lk ok.kk)
-  | p, .dev x c sb off pw seg kids, ok, y, hy => by
+    · exact stepSkip_leaf d ok.lk (by rw [ok.infk]; exact dval_info dv) (fi_of_nil w ok.lk ok.kk)
+  | p, .dev kd x c sb off pw seg es kids, ok, y, hy => by
     unfold NodeOK at ok
     obtain ⟨dt, _, okk⟩ := ok
-    simp only [Node.objs, List.mem_append, List.mem_cons, List.mem_nil_iff, or_false] at hy
-    rcases hy with (e | e | e) | hy
-    · rw [e]; exact stepSkip_other d dt.lx (by rw [dt.infx]; exact (rowSummary_spec row_385).choose_spec.2.2.2.2.2.1) (by rw [dt.thx]; exact hne)
+    simp only [Node.objs, List.mem_append, List.mem_cons, List.mem_nil_iff, or_false, List.mem_map] at hy
+    rcases hy with (e | e | e) | ⟨a, ha, e⟩ | hy
+    · rw [e]; exact stepSkip_other d dt.lx (by rw [dt.infx]; exact (rowSummary_spec (row_blk kd)).choose_spec.2.2.2.2.2.1) (by rw [dt.thx]; exact hne)
     · rw [e]; exact stepSkip_leaf d dt.lc (by rw [dt.infc]; exact (rowSummary_spec row_507).choose_spec.2.2.2.2.2.1) (fi_of_nil w dt.lc dt.kc)
     · rw [e]; exact stepSkip_sb d dt.lsb dt.opsb dt.infsb
+    · rw [← e]
+      have ca := dt.args a ha
+      exact stepSkip_leaf d ca.le (by
+        rw [ca.inf]
+        obtain ⟨_, _, _, _, _, _, _, hi, _⟩ := const_row a.n a.v
+        exact hi) (fi_of_nil w ca.le ca.ke)
     · exact skip_nodes w hne sb kids okk y hy
+  | p, .leaf kd x c off seg es, ok, y, hy => by
+    unfold NodeOK at ok
+    simp only [Node.objs, List.mem_cons, List.mem_map] at hy
+    rcases hy with e | e | ⟨a, ha, e⟩
+    · rw [e]; exact stepSkip_other d ok.lx (by rw [ok.infx]; exact (rowSummary_spec (row_leaf kd)).choose_spec.2.2.2.2.2.1) (by rw [ok.thx]; exact hne)
+    · rw [e]; exact stepSkip_leaf d ok.lc (by rw [ok.infc]; exact (rowSummary_spec row_507).choose_spec.2.2.2.2.2.1) (fi_of_nil w ok.lc ok.kc)
+    · rw [← e]
+      have ca := ok.args a ha
+      exact stepSkip_leaf d ca.le (by
+        rw [ca.inf]
+        obtain ⟨_, _, _, _, _, _, _, hi, _⟩ := const_row a.n a.v
+        exact hi) (fi_of_nil w ca.le ca.ke)
 theorem skip_nodes {d d' : Bytes} {t : ObjectTree} {h h' : Nat} (w : WF t) (hne : h' ≠ h) :
     ∀ (p : Nat) (ns : List Node), NodesOK d' t h' true p ns → ∀ y ∈ objsL ns, StepSkip d t h y
   | _, [], _, y, hy => by simp [objsL] at hy
@@ -369,11 +384,37 @@ theorem parseAML_pool {d : Bytes} (hd : d.size + 1024 ≤ 4294967296) (hh : head
 
 /-! ## the namespace in the pool -/
 
-theorem gObjs_len (gs : List Grp) : (gObjs gs).length = 3 * gSize gs := by
+/-- number of declarations of the groups -/
+def gCnt (gs : List Grp) : Nat := (gs.map (fun g => cntL g.ns)).sum
+
+theorem gCnt_mem {gs : List Grp} {g : Grp} (h : g ∈ gs) : cntL g.ns ≤ gCnt gs := by
+  unfold gCnt
+  induction gs with
+  | nil => cases h
+  | cons a gs ih =>
+    simp only [List.map_cons, List.sum_cons]
+    rcases List.mem_cons.1 h with e | h'
+    · rw [e]; omega
+    · have := ih h'; omega
+
+theorem gObjs_len (gs : List Grp) : 2 * gCnt gs ≤ (gObjs gs).length := by
+  induction gs with
+  | nil => simp [gObjs, gCnt]
+  | cons g gs ih =>
+    have := objsL_len g.ns
+    simp only [gObjs, gCnt, List.flatMap_cons, List.length_append, List.map_cons, List.sum_cons] at ih ⊢
+    omega
+
+/-- the pool holds at least as many objects as the sizes count -/
+theorem gObjs_ge {t0 t : ObjectTree} {gs : List Grp} (pl : Pool t0 t gs) : gSize gs ≤ (gObjs gs).length := by
+  have hok := pl.ok
+  clear pl
   induction gs with
   | nil => simp [gObjs, gSize]
   | cons g gs ih =>
-    simp only [gObjs, gSize, List.flatMap_cons, List.length_append, List.map_cons, List.sum_cons, objsL_len] at ih ⊢
+    have := objsL_ge 0 g.ns (hok g (List.mem_cons_self ..))
+    have := ih (fun g' hg' => hok g' (List.mem_cons_of_mem _ hg'))
+    simp only [gObjs, gSize, List.flatMap_cons, List.length_append, List.map_cons, List.sum_cons] at this ⊢
     omega
 
 theorem flatMap_flatMap_tops (gs : List Grp) {β : Type} (k : Nat → List β) :
@@ -392,11 +433,11 @@ theorem flatMap_congr' {α β : Type} (l : List α) (f g : α → List β) (h : 
 
 /-- **the namespace in the pool of several tables**: the default scopes, then the entries of every table's nodes -/
 theorem nsOf_pool {t0 t : ObjectTree} {gs : List Grp} (pl : Pool t0 t gs) (b : Base t0) (tables : Array Bytes)
-    (hk0 : 1 ≤ (K t0 0).length) :
+    (htab : ∀ g ∈ gs, tables.getD (g.h - 1) #[] = g.d) (hk0 : 1 ≤ (K t0 0).length) :
     nsOf t tables = flatNs ((K t0 0).map (fun y => ([nameStr (slot t0 y).name], "scope")))
       ((gs.flatMap (fun g => entsL [] g.ns)).map (fun e => (e.1, e.2.1))) := by
   have gl := gObjs_live pl
-  have hsz : 3 * gSize gs + 2 ≤ t.pool.size := by
+  have hsz : 2 * gCnt gs + 2 ≤ t.pool.size := by
     cases hk : K t0 0 with
     | nil => rw [hk] at hk0; simp at hk0
     | cons y ys =>
@@ -416,7 +457,8 @@ theorem nsOf_pool {t0 t : ObjectTree} {gs : List Grp} (pl : Pool t0 t gs) (b : B
         · rcases List.mem_cons.1 hz with e | hz
           · rw [e]; exact live_lt (pl.old y hyl).1
           · exact live_lt (gl z hz))
-      simp only [List.length_cons, gObjs_len] at this
+      have hgl := gObjs_len gs
+      simp only [List.length_cons] at this
       omega
   obtain ⟨f, hf⟩ : ∃ f, t.pool.size + 1 = f + 1 := ⟨t.pool.size, rfl⟩
   have h00 : ∀ y ∈ gObjs gs, y ≠ 0 := fun y hy e => by have := pl.new y hy; rw [e, b.root] at this; cases this
@@ -439,8 +481,8 @@ theorem nsOf_pool {t0 t : ObjectTree} {gs : List Grp} (pl : Pool t0 t gs) (b : B
     · rw [flatMap_flatMap_tops]
       apply flatMap_congr'
       intro g hg
-      have h1 := gSize_mem hg
-      exact nsStep_list tables 0 g.ns [] f 0 (pl.ok g hg) (fun y hy => h00 y (List.mem_flatMap.2 ⟨g, hg, hy⟩)) (by omega)
+      have h1 := gCnt_mem hg
+      exact nsStep_list tables (htab g hg) 0 g.ns [] f 0 (pl.ok g hg) (fun y hy => h00 y (List.mem_flatMap.2 ⟨g, hg, hy⟩)) (by omega)
   have hcalls : callWalk t (f + 1) 0 = [] := by
     rw [callWalk_eq, pl.k0, List.flatMap_append, List.append_eq_nil_iff]
     constructor
@@ -455,7 +497,7 @@ theorem nsOf_pool {t0 t : ObjectTree} {gs : List Grp} (pl : Pool t0 t gs) (b : B
     · rw [flatMap_flatMap_tops]
       apply flatMap_nil'
       intro g hg
-      have h1 := gSize_mem hg
+      have h1 := gCnt_mem hg
       exact call_list 0 g.ns f (pl.ok g hg) (by omega)
   unfold nsOf flatNs
   rw [hf, hwalk, hcalls]
@@ -468,32 +510,32 @@ theorem resolveCalls_nop (ns : Namespace) : resolveCalls { ns := ns, pending := 
   simp
 
 theorem fold_tables : ∀ (ls : List (List NObj)) (defs ents : List (AmlProg.Path × String)),
-    ((defs ++ ents).map (·.1) ++ (ls.flatMap (entsOL [])).map (·.1)).Nodup →
+    ((defs ++ ents).map (·.1) ++ (ls.flatMap (entsOL [])).map (·.1)).Nodup → (∀ l ∈ ls, oksOf l) →
     (ls.map objsOf).foldl (fun st tbl => resolveCalls (declObjs [] tbl st)) { ns := flatNs defs ents, pending := [] } =
       { ns := flatNs defs (ents ++ ls.flatMap (entsOL [])), pending := [] }
-  | [], defs, ents, _ => by simp
-  | l :: ls, defs, ents, hnd => by
+  | [], defs, ents, _, _ => by simp
+  | l :: ls, defs, ents, hnd, hok => by
     simp only [List.map_cons, List.foldl_cons, List.flatMap_cons]
     have e2 : (entsOL [] l ++ ls.flatMap (entsOL [])).map (·.1) = (entsOL [] l).map (·.1) ++ (ls.flatMap (entsOL [])).map (·.1) :=
       List.map_append
     rw [List.flatMap_cons, e2] at hnd
     rw [declObjs_nest l [] defs ents (Or.inl rfl) (by
       rw [← List.append_assoc] at hnd
-      exact (List.nodup_append.1 hnd).1), resolveCalls_nop]
+      exact (List.nodup_append.1 hnd).1) (hok l (List.mem_cons_self ..)), resolveCalls_nop]
     rw [fold_tables ls defs (ents ++ entsOL [] l) (by
       have : (defs ++ (ents ++ entsOL [] l)).map (·.1) ++ (ls.flatMap (entsOL [])).map (·.1) =
           (defs ++ ents).map (·.1) ++ ((entsOL [] l).map (·.1) ++ (ls.flatMap (entsOL [])).map (·.1)) := by simp
-      rw [this]; exact hnd)]
+      rw [this]; exact hnd) (fun l' hl' => hok l' (List.mem_cons_of_mem _ hl'))]
     simp
 
 /-- **the namespace of several tables of the fragment**: the default scopes, then the entries of every table in order -/
-theorem namespaceOf_multi (ls : List (List NObj))
+theorem namespaceOf_multi (ls : List (List NObj)) (hok : ∀ l ∈ ls, oksOf l)
     (hnd : (defaultNs.objs.map (·.1) ++ (ls.flatMap (entsOL [])).map (·.1)).Nodup) :
     namespaceOf (ls.map objsOf) = flatNs defaultNs.objs (ls.flatMap (entsOL [])) := by
   unfold namespaceOf
   have h0 : ({ ns := defaultNs } : NsSt) = { ns := flatNs defaultNs.objs [], pending := [] } := by
     unfold flatNs defaultNs; simp
-  rw [h0, fold_tables ls defaultNs.objs [] (by simpa using hnd)]
+  rw [h0, fold_tables ls defaultNs.objs [] (by simpa using hnd) hok]
   simp
 
 /-! ## several tables: the parser side -/
@@ -531,16 +573,17 @@ theorem grpMatch_append : ∀ (gs : List Grp) (ls : List (List NObj)) (g : Grp) 
 theorem loadAll_pool {t0 : ObjectTree} (b : Base t0) (hk0 : 1 ≤ (K t0 0).length) (h06 : t0.pool.size ≤ 6) :
     ∀ (ls done : List (List NObj)) (t : ObjectTree) (tables : Array Bytes) (h : Nat) (gs : List Grp),
       Pool t0 t gs → GrpMatch gs done → (∀ g ∈ gs, g.h < h) → (∀ l ∈ ls, oksOf l) →
-      gSize gs + totalLen ls ≤ 1000000000 →
-      ∃ t' gs' tables', loadAll t tables h (ls.map objsOf) = some (nsOf t' tables') ∧ Pool t0 t' gs' ∧ GrpMatch gs' (done ++ ls)
-  | [], done, t, tables, h, gs, pl, hm, _, _, _ => ⟨t, gs, tables, by simp [loadAll], pl, by simpa using hm⟩
-  | l :: ls, done, t, tables, h, gs, pl, hm, hlt, hok, hlen => by
-    have henc : AmlProg.encode (objsOf l) = encPs (psOf l) := by unfold AmlProg.encode; exact enc_nobjs l
+      gSize gs + totalLen ls ≤ 1000000000 → tables.size + 1 = h → (∀ g ∈ gs, 1 ≤ g.h ∧ tables.getD (g.h - 1) #[] = g.d) →
+      ∃ t' gs' tables', loadAll t tables h (ls.map objsOf) = some (nsOf t' tables') ∧ Pool t0 t' gs' ∧ GrpMatch gs' (done ++ ls) ∧
+        ∀ g ∈ gs', tables'.getD (g.h - 1) #[] = g.d
+  | [], done, t, tables, h, gs, pl, hm, _, _, _, _, htb => ⟨t, gs, tables, by simp [loadAll], pl, by simpa using hm, fun g hg => (htb g hg).2⟩
+  | l :: ls, done, t, tables, h, gs, pl, hm, hlt, hok, hlen, hts, htb => by
+    have henc : AmlProg.encode (objsOf l) = encPs (psOf l) := by unfold AmlProg.encode; exact enc_nobjs l (hok l (List.mem_cons_self ..))
     generalize hpl : (AmlProg.encode (objsOf l)).toArray = pl'
     have hpll : pl'.toList = encPs (psOf l) := by rw [← hpl, ← henc]
     have hplen : pl'.size = (encPs (psOf l)).length := by rw [← hpll]; simp
     simp only [totalLen, List.map_cons, List.sum_cons] at hlen
-    obtain ⟨hn1, hn2⟩ := encPs_len (psOf l)
+    obtain ⟨hn1, hn2⟩ := encPs_len (psOf l) (ok_nobjs l (hok l (List.mem_cons_self ..)))
     let d := mkTable pl'
     have hdsz : d.size = headerLen + pl'.size := mkTable_size pl'
     have hpsz := pl.sz
@@ -557,13 +600,14 @@ theorem loadAll_pool {t0 : ObjectTree} (b : Base t0) (hk0 : 1 ≤ (K t0 0).lengt
         show 8 * sizePs (psOf l) + 8 * gSize gs + (K t0 0).length + closesPs (psOf l) + 15 ≤ fuelFor d t
         unfold fuelFor; rw [hdsz, hplen]
         -- the pool holds the objects of the earlier tables
-        have hsz : 3 * gSize gs ≤ t.pool.size := by
+        have hsz : gSize gs ≤ t.pool.size := by
           have gl := gObjs_live pl
           have := nodup_bounded_length t.pool.size _ pl.nd (fun z hz => live_lt (gl z hz))
-          rw [gObjs_len] at this; exact this
+          have hgl := gObjs_ge pl
+          omega
         omega)
     have hm1 : GrpMatch (gs ++ [⟨d, h, ns⟩]) (done ++ [l]) := grpMatch_append gs done ⟨d, h, ns⟩ l hm hp
-    obtain ⟨t', gs', tables', e', pl', hm'⟩ := loadAll_pool b hk0 h06 ls (done ++ [l]) s'.tree (tables.push d) (h + 1) (gs ++ [⟨d, h, ns⟩]) pl1 hm1
+    obtain ⟨t', gs', tables', e', pl', hm', htb'⟩ := loadAll_pool b hk0 h06 ls (done ++ [l]) s'.tree (tables.push d) (h + 1) (gs ++ [⟨d, h, ns⟩]) pl1 hm1
       (by
         intro g hg
         rcases List.mem_append.1 hg with hg | hg
@@ -576,7 +620,24 @@ theorem loadAll_pool {t0 : ObjectTree} (b : Base t0) (hk0 : 1 ≤ (K t0 0).lengt
           simp only [totalLen] at hlen ⊢
           show (gSize gs + sizeL ns) + _ ≤ _
           omega)
-    refine ⟨t', gs', tables', ?_, pl', by simpa using hm'⟩
+      (by rw [Array.size_push, hts])
+      (by
+        intro g hg
+        rcases List.mem_append.1 hg with hg | hg
+        · obtain ⟨h1, h2⟩ := htb g hg
+          have := hlt g hg
+          refine ⟨h1, ?_⟩
+          rw [← h2]
+          simp only [Array.getD_eq_getD_getElem?]
+          rw [Array.getElem?_push_lt (by omega), Array.getElem?_eq_getElem (by omega)]
+        · have : g = ⟨d, h, ns⟩ := by simpa using hg
+          rw [this]
+          refine ⟨by show 1 ≤ h; omega, ?_⟩
+          show (tables.push d).getD (h - 1) #[] = d
+          have : h - 1 = tables.size := by omega
+          rw [this]
+          simp)
+    refine ⟨t', gs', tables', ?_, pl', by simpa using hm', htb'⟩
     simp only [List.map_cons]
     unfold loadAll
     simp only
@@ -587,8 +648,9 @@ theorem loadAll_pool {t0 : ObjectTree} (b : Base t0) (hk0 : 1 ≤ (K t0 0).lengt
     rw [e]
     exact e'
 
-/-- **C11 for any number of tables of the nested fragment.**  For every sequence of tables, each made of `Device(NAME){…}`
-(nested to any depth) and `Name(NAME, integer)` declarations, whose declared absolute paths are all distinct and differ
+/-- **C11 for any number of tables of the nested fragment.**  For every sequence of tables, each a program of
+the nested fragment (`agrees_nest`: devices, thermal zones, processors, power resources nested to any depth around integer and
+string names, events and mutexes), whose declared absolute paths are all distinct and differ
 from the default scopes, loaded in order into the default namespace: every table is accepted by the parser (model), and
 the namespace read off the final object tree is the namespace ACPI's scoping rules assign to the sequence of tables. -/
 theorem agrees_multi (ls : List (List NObj)) (hok : ∀ l ∈ ls, oksOf l)
@@ -598,11 +660,11 @@ theorem agrees_multi (ls : List (List NObj)) (hok : ∀ l ∈ ls, oksOf l)
   have hK0 : (K t 0).length = 5 := by
     have := congrArg List.length hnames
     simpa [defaultNs] using this
-  obtain ⟨t', gs', tables', e, pl', hm⟩ := loadAll_pool b (by rw [hK0]; decide) (by rw [hsz6]; decide) ls [] t #[] 1 [] (Pool.init tg)
-    (by unfold GrpMatch; trivial) (fun g hg => by cases hg) hok (by simpa [gSize] using hlen)
-  have hns := nsOf_pool pl' b tables' (by rw [hK0]; decide)
+  obtain ⟨t', gs', tables', e, pl', hm, htb⟩ := loadAll_pool b (by rw [hK0]; decide) (by rw [hsz6]; decide) ls [] t #[] 1 [] (Pool.init tg)
+    (by unfold GrpMatch; trivial) (fun g hg => by cases hg) hok (by simpa [gSize] using hlen) rfl (fun g hg => by cases hg)
+  have hns := nsOf_pool pl' b tables' htb (by rw [hK0]; decide)
   rw [hnames, grp_ents gs' ls (by simpa using hm) hok] at hns
-  have hspec := namespaceOf_multi ls hnd
+  have hspec := namespaceOf_multi ls hok hnd
   have hmodel : modelNs (ls.map objsOf) = some (flatNs defaultNs.objs (ls.flatMap (entsOL []))) := by
     unfold modelNs
     rw [ht]
